@@ -84,7 +84,7 @@ class C16(CheckBase):
     stubbed_components = ['open() of a deliberately failing attachment (decided by simkernel)']
 
     def budget(self, tier):
-        return 500 if tier == 'quick' else 12000
+        return 800 if tier == 'quick' else 15000
 
     def time_cap(self, tier):
         return 600 if tier == 'quick' else 5400
